@@ -99,69 +99,61 @@ func has(l []string, x string) bool {
 }
 
 func kinds(e *gov.Env) []*kind {
-	q := e.Q()
-	round := func(f func(who string) polyenv.Result, what string) {
-		for i := 1; i <= q; i++ {
+	// round (harness macro): validators approve one after the other until done() reports the effect; the macro
+	// does not presuppose the quorum rule.
+	round := func(w gov.Execer, f func(who string) polyenv.Result, done func(m map[string]string) bool, what string) {
+		for i := 1; i <= e.N && !done(w.Dump().Map()); i++ {
 			must(f(e.V(i)), what+" by "+e.V(i))
 		}
+		if !done(w.Dump().Map()) {
+			panic("harness: " + what + ": no effect after every validator approved")
+		}
 	}
+	chainIn := func(m map[string]string) bool { return present(m, gov.KeySideChain(1)) }
+	chainOut := func(m map[string]string) bool { return !present(m, gov.KeySideChain(1)) }
+	relIn := func(m map[string]string) bool { return present(m, gov.KeyRelayer(e.A("ra").Addr)) }
+	relOut := func(m map[string]string) bool { return !relIn(m) }
+	svIn := func(m map[string]string) bool { return has(gov.SVs(m), "sv1") }
+	svOut := func(m map[string]string) bool { return !svIn(m) }
 	regChain := func(w gov.Execer, h uint32) {
 		must(e.RegisterSideChain(w, "o1", "o1", 1, "reg", h), "registerSideChain")
-		round(func(v string) polyenv.Result {
+		round(w, func(v string) polyenv.Result {
 			return e.ApproveSC(w, side_chain_manager.APPROVE_REGISTER_SIDE_CHAIN, 1, v, h)
-		}, "approveRegisterSideChain")
-		if !present(w.Dump().Map(), gov.KeySideChain(1)) {
-			panic("harness: chain 1 not registered after a full round")
-		}
+		}, chainIn, "approveRegisterSideChain")
 	}
 	quitChain := func(w gov.Execer, h uint32) {
 		must(e.QuitSideChain(w, "o1", "o1", 1, h), "quitSideChain")
-		round(func(v string) polyenv.Result {
+		round(w, func(v string) polyenv.Result {
 			return e.ApproveSC(w, side_chain_manager.APPROVE_QUIT_SIDE_CHAIN, 1, v, h)
-		}, "approveQuitSideChain")
-		if present(w.Dump().Map(), gov.KeySideChain(1)) {
-			panic("harness: chain 1 still registered after a full quit round")
-		}
+		}, chainOut, "approveQuitSideChain")
 	}
 	addRelayer := func(w gov.Execer, h uint32) {
 		id := gov.Counter(w.Dump().Map(), gov.KeyRelayerApplyID())
 		must(e.RegisterRelayer(w, []string{"ra"}, "X", h), "registerRelayer")
-		round(func(v string) polyenv.Result {
+		round(w, func(v string) polyenv.Result {
 			return e.ApproveRelayer(w, relayer_manager.APPROVE_REGISTER_RELAYER, id, v, h)
-		}, "approveRegisterRelayer")
-		if !present(w.Dump().Map(), gov.KeyRelayer(e.A("ra").Addr)) {
-			panic("harness: relayer not registered after a full round")
-		}
+		}, relIn, "approveRegisterRelayer")
 	}
 	delRelayer := func(w gov.Execer, h uint32) {
 		id := gov.Counter(w.Dump().Map(), gov.KeyRelayerRemoveID())
 		must(e.RemoveRelayer(w, []string{"ra"}, "X", h), "removeRelayer")
-		round(func(v string) polyenv.Result {
+		round(w, func(v string) polyenv.Result {
 			return e.ApproveRelayer(w, relayer_manager.APPROVE_REMOVE_RELAYER, id, v, h)
-		}, "approveRemoveRelayer")
-		if present(w.Dump().Map(), gov.KeyRelayer(e.A("ra").Addr)) {
-			panic("harness: relayer still registered after a full removal round")
-		}
+		}, relOut, "approveRemoveRelayer")
 	}
 	addSV := func(w gov.Execer, h uint32) {
 		id := gov.Counter(w.Dump().Map(), gov.KeySVApplyID())
 		must(e.RegisterSV(w, []string{"sv1"}, "X", h), "registerStateValidator")
-		for i := 1; i <= q; i++ { // neo3 approvals answer FALSE without error below the quorum
-			must(e.ApproveSV(w, neo3_state_manager.APPROVE_REGISTER_STATE_VALIDATOR, id, e.V(i), h), "approveRegisterStateValidator")
-		}
-		if !has(gov.SVs(w.Dump().Map()), "sv1") {
-			panic("harness: sv1 not registered after a full round")
-		}
+		round(w, func(v string) polyenv.Result {
+			return e.ApproveSV(w, neo3_state_manager.APPROVE_REGISTER_STATE_VALIDATOR, id, v, h)
+		}, svIn, "approveRegisterStateValidator")
 	}
 	delSV := func(w gov.Execer, h uint32) {
 		id := gov.Counter(w.Dump().Map(), gov.KeySVRemoveID())
 		must(e.RemoveSV(w, []string{"sv1"}, "X", h), "removeStateValidator")
-		for i := 1; i <= q; i++ {
-			must(e.ApproveSV(w, neo3_state_manager.APPROVE_REMOVE_STATE_VALIDATOR, id, e.V(i), h), "approveRemoveStateValidator")
-		}
-		if has(gov.SVs(w.Dump().Map()), "sv1") {
-			panic("harness: sv1 still registered after a full removal round")
-		}
+		round(w, func(v string) polyenv.Result {
+			return e.ApproveSV(w, neo3_state_manager.APPROVE_REMOVE_STATE_VALIDATOR, id, v, h)
+		}, svOut, "approveRemoveStateValidator")
 	}
 	u := gov.U64
 	c1 := e.A("c1").PubHex
